@@ -11,7 +11,10 @@ try:
         (shutil.copytree if os.path.isdir(p) else shutil.copy)(p, D + '/' + n)
     lines = open(D + '/' + file).read().split('\n')
     old = lines[ln]
-    lines[ln] = old[:s] + rep + old[e:]
+    if rep == '@SWAP@':
+        lines[ln], lines[ln + 1] = lines[ln + 1], lines[ln]
+    else:
+        lines[ln] = old[:s] + rep + old[e:]
     open(D + '/' + file, 'w').write('\n'.join(lines))
     # must still compile (cargo check, default features)
     c = subprocess.run(['cargo', 'check', '--offline', '--lib', '-q'], cwd=D, capture_output=True, text=True, env=dict(os.environ, CARGO_TARGET_DIR='/var/tmp/mutate/target%d' % (i % 6)))
